@@ -12,6 +12,7 @@ from ..facts import AnalysisBroken, short
 from ..paths import path, pstr
 from ..effects import writes
 from ..moves import MoveAnalysis, vtag
+from .. import symval
 from .. import witness, extract
 
 EXPLANATION = ('C20: unsequenced read/consume pairs over every library function instantiation, uninitialised-member analysis over every '
@@ -136,30 +137,27 @@ def check_policy(ctx, tu, rule='C20.P', only=None):
         name = f.name
         if only and name not in only:
             continue
-        ws = writes(f)
-        rets = f.return_nodes()
-        retv = [f.strip_all_casts(f.kids(r)[0]) for r in rets if f.kids(r)]
-        if name in ('operator++', 'operator--'):
-            op = name[-2:]
-            ok = len(retv) == 1 and f.nodes[retv[0]]['cls'] == 'UnaryOperator' and f.nodes[retv[0]].get('op') == op \
-                and not f.nodes[retv[0]].get('postfix') and path(f, f.kids(retv[0])[0]) == ('this', '.value')
-            ctx.ob(rule, f, 'prefix %s returns the new value (std::atomic convention)' % op, ok,
-                   detail='the library compares the result of %scounter with thresholds (getNextCounter()==0 wrap test)' % op)
-        elif name == 'load':
-            ok = len(retv) == 1 and path(f, retv[0]) == ('this', '.value') and not [w for w in ws if w['how'] != 'call:load']
-            ctx.ob(rule, f, 'load returns the stored value without changing it', ok)
-        elif name == 'store':
-            asg = [w for w in ws if w['how'] == 'assign' and w['path'] == ('this', '.value')]
-            ok = len(asg) == 1 and path(f, asg[0]['rhs'])[0].startswith('v:')
-            ctx.ob(rule, f, 'store assigns the given value', ok)
-        elif name == 'exchange':
-            asg = [w for w in ws if w['how'] == 'assign' and w['path'] == ('this', '.value')]
-            ok = False
-            if len(asg) == 1 and len(retv) == 1 and f.nodes[retv[0]]['cls'] == 'DeclRefExpr':
-                vd = f.var_decls().get(f.decl(retv[0])['id'])
-                if vd and vd.get('init') and path(f, vd['init']) == ('this', '.value'):
-                    ok = f.pos_dominates(f.pos(vd['stmt']), asg[0]['pos']) and f.pos(vd['stmt']) != asg[0]['pos']
-            ctx.ob(rule, f, 'exchange returns the previous value and stores the new one', ok)
+        if name in ('operator++', 'operator--', 'load', 'store', 'exchange'):
+            # value numbering with helpers inlined (symval): result and final stored value as terms over the initial value and the argument
+            this = symval.Obj(value='F:value')
+            ev = symval.Eval(tu)
+            try:
+                ret = ev.run(f, this, ['A:%d' % i for i in range(len(f.params))])
+            except symval.Unsupported as e:
+                ctx.broken_later('%s: SingleThreading::Atomic::%s is outside the branch-free scalar fragment (%s)' % (rule, name, e))
+                continue
+            fin = this.get('value')
+            if name in ('operator++', 'operator--'):
+                op = name[-2:]
+                want = ('+', 'F:value', 1 if op == '++' else -1)
+                ctx.ob(rule, f, 'prefix %s returns the new value (std::atomic convention)' % op, ret == want and fin == want,
+                       detail='returns %r, stores %r; the library compares the result of %scounter with thresholds (getNextCounter()==0 wrap test)' % (ret, fin, op))
+            elif name == 'load':
+                ctx.ob(rule, f, 'load returns the stored value without changing it', ret == 'F:value' and fin == 'F:value', detail='returns %r, stores %r' % (ret, fin))
+            elif name == 'store':
+                ctx.ob(rule, f, 'store assigns the given value', fin == 'A:0', detail='stores %r' % (fin,))
+            elif name == 'exchange':
+                ctx.ob(rule, f, 'exchange returns the previous value and stores the new one', ret == 'F:value' and fin == 'A:0', detail='returns %r, stores %r' % (ret, fin))
         elif f.kind == 'ctor' and f.d.get('ctor') not in ('copy', 'move', 'default'):
             inits = [i for i in f.d.get('inits', []) if i.get('member') == 'value' and i.get('n')]
             ok = bool(inits) and path(f, inits[0]['n'])[0].startswith('v:')
